@@ -1363,50 +1363,91 @@ def stream_known_mechanisms(ctx, ses, n, name="line-boundary-characters"):
         run_command(ctx, ses, name, i, atoms, bang, "rec", form)
 
 
+LEXER_MESSAGES = re.compile(r'EOF in multi-line|Unmatched "[)\]}]" at line|" at \(\d+, \d+\) ends "')
+TRIPLE = ('"' * 3, "'" * 3)
+
+
 def stream_captured(ctx, ses, n, name="captured-output-as-argument"):
     ctx.stream_rule(
         name,
-        "`rec pre @$(emit) post` and `rec pre $(emit) post` where `emit` is a callable alias printing a generated text (tokens with * $NAME ~ "
-        "quotes ; | > separated by blanks / tabs / newlines, empty output, no final newline, CRLF): @$() must deliver the white-space separated "
-        "tokens of the output verbatim (compared with str.split for plain tokens and with the session's own Lexer.split otherwise), $() exactly "
-        "one argument holding the output; nothing globbed or expanded. Tied only (the captured pipeline and Lexer.split are not modelled); "
-        "non-trivial = the output has a glob / expansion character or a quote",
+        "`rec pre @$(emit) post` and `rec pre $(emit) post` where `emit` is a callable alias printing a generated text: 0-5 lines of tokens "
+        "(* $NAME ~ quotes ; | > && || brackets with blanks inside, $( ) @( ), ` # comment`, Windows-like paths) with lines ENDING IN "
+        "BACKSLASHES, leading indentation that steps up and inconsistently down, blank lines, tabs, CRLF / FF / U+2028 line ends, no final "
+        "newline, a few NFKC-sensitive and unbalanced-bracket lines. Contract (Lean capturedInject + theorem C04_captured_inject_per_line): the "
+        "arguments are the concatenation of what Lexer.split answers for EACH line on its own - compared with the model fed with the "
+        "session's per-line answers (joining lines is a disagreement) - and the property oracle: the white-space separated tokens of the "
+        "output verbatim (str.split for lines without quotes / comments); $() exactly one argument holding the output; nothing globbed or "
+        "expanded. non-trivial = several lines, or a glob / expansion character, quote, backslash or indentation",
     )
     rng = ctx.rng
-    toks = ["a", "b1", "*", "*.py", "p*", "$XV_A", "$XV_STAR", "~", "~/x", "a=~", "-x", "--k=v", "\u00e9", "\U0001d11e", "x;y", "|", ">", "&&", "[ab]", "?", "a\\b", "$(ls)", "@(1)", "{}", "!"]
+    toks = ["a", "b1", "*", "*.py", "p*", "$XV_A", "$XV_STAR", "~", "~/x", "a=~", "-x", "--k=v", "\u00e9", "\U0001d11e", "x;y", "|", ">", "&&", "||", "&", "[ab]", "?", "a\\b",
+            "$(ls)", "@(1)", "{}", "!", "C:\\dir\\sub", "\\\\host\\share", "[a b]", "(x y)", "{k: v}", "f(1, 2)", "a[1 2]b", "x#y", "1.5e3", "0x1F", "and", "or", "not", "if x:", "\u4e2d"]
+    rare = ["\ufb01le.txt", "x\u00b2", "\u00aa", "(b", "[c", TRIPLE[0] + "d", "e)", TRIPLE[1]]
     for i in range(n):
         if ctx.enough_failures():
             break
+        nlines = rng.choice([0, 1, 1, 2, 2, 3, 3, 4, 5])
+        indent_mode = rng.choice(["none", "none", "up", "down", "zigzag", "tabs"])
         lines = []
-        quoted = edge = False
-        for _ in range(rng.choice([0, 1, 1, 1, 2, 3])):
+        for k in range(nlines):
+            if rng.random() < 0.08:
+                lines.append(rng.choice(["", "  ", "\t"]))  # a blank line
+                continue
             ws = []
-            for _ in range(rng.randint(0, 4)):
-                if rng.random() < 0.08:
-                    ws.append(rng.choice(['"b c"', "'q  r'", '"$XV_A"', "'*'"]))
-                    quoted = True
+            for _ in range(rng.randint(1, 4)):
+                r = rng.random()
+                if r < 0.08:
+                    ws.append(rng.choice(['"b c"', "'q  r'", '"$XV_A"', "'*'", '"a\\\\"', "'#'"]))
+                elif r < 0.11:
+                    ws.append(rng.choice(rare))
                 else:
                     ws.append(rng.choice(toks))
             line = rng.choice([" ", " ", "  ", "\t"]).join(ws)
-            if rng.random() < 0.04 and ws:
-                line = rng.choice([" ", "  ", "\t"]) + line if rng.random() < 0.5 else line + rng.choice([" ", "  "])
-                edge = True
+            if rng.random() < 0.07:
+                line += rng.choice([" # c", "  # (x", " #"])
+            if rng.random() < 0.25:
+                line += "\\" * rng.choice([1, 1, 2])  # a backslash at the END of the line: text, not a continuation
+            ind = {"none": 0, "up": k, "down": 2 * (nlines - k) - 1, "zigzag": [4, 2, 3, 1, 5, 0][k % 6], "tabs": 0}[indent_mode]
+            line = ("\t" * (k % 3) if indent_mode == "tabs" else " " * ind) + line
+            if rng.random() < 0.05:
+                line += rng.choice([" ", "  "])
             lines.append(line)
-        nl = rng.choice(["\n", "\n", "\n", "\r\n"])
+        nl = rng.choice(["\n", "\n", "\n", "\n", "\r\n", "\x0c", "\u2028"])
         text = nl.join(lines) + (nl if lines and rng.random() < 0.85 else "")
-        check_captured(ctx, ses, name, i, text, quoted, edge)
+        check_captured(ctx, ses, name, i, text)
 
 
-def check_captured(ctx, ses, name, i, text, quoted, edge):
+def check_captured(ctx, ses, name, i, text, *_ignored):
+    import unicodedata
+
+    lexer = ses.XSH.execer.parser.lexer
     ses.emit_text = text
-    plain = text.split()
+    lines = text.splitlines()
+    per, table, raised = [], [], False
+    for l in lines:
+        try:
+            t = lexer.split(l)
+        except Exception:  # noqa: BLE001  (then the whole injection may raise: nothing to compare)
+            t, raised = [], True
+        per.append(t)
+        table.append([codes(l), [codes(x) for x in t]])
+    m = ctx.driver.call("c04.captured", codes(text), table)
+    m_toks, m_lines = [uncodes(x) for x in m[0]], [uncodes(x) for x in m[1]]
+    nontriv = len(lines) > 1 or any(c in text for c in "*$~'\"\\") or any(l[:1] in (" ", "\t") for l in lines)
     for op in ("@$(", "$("):
         src = f"rec pre {op}emit) post"
         r = ses.run(src + "\n", {})
         case = {"stream": name, "source": src, "emit_output": text}
-        ctx.case(name, (i, op, text), any(c in text for c in "*$~'\""), {"source": src, "emit_output": text[:80]})
+        ctx.case(name, (i, op, text), nontriv, {"source": src, "emit_output": text[:80]})
+        if op == "@$(" and m_lines != lines:
+            ctx.disagree(name, case | {"what": "str.splitlines"}, lines, m_lines)
         if r[0] != "ok" or len(r[1]) != 1:
+            if op == "@$(" and raised:
+                ctx.count("captured/per-line-split-raises")
+                continue
             ctx.spec_failure(case, {"result": r[:2]}, "a command with a captured-output argument did not run exactly once", None)
+            if op == "@$(":
+                ctx.disagree(name, case, r[:2], m_toks)
             continue
         got = r[1][0]
         if op == "$(":
@@ -1414,22 +1455,27 @@ def check_captured(ctx, ses, name, i, text, quoted, edge):
             if not (len(got) == 3 and got[0] == "pre" and got[2] == "post" and got[1].replace("\r\n", "\n").rstrip("\n") == norm):
                 ctx.spec_failure(case, {"argv": got}, "$() as an argument is not exactly one argument holding the captured output", None)
             continue
-        lexed = [t for l in text.splitlines() for t in ses.XSH.execer.parser.lexer.split(l)]
-        want = ["pre"] + (plain if not quoted else [("&&" if t == "and" else "||" if t == "or" else t.strip()) for t in lexed if t.strip()]) + ["post"]
-        if got != want:
+        if got[:1] != ["pre"] or got[-1:] != ["post"] or len(got) < 2:
+            ctx.spec_failure(case, {"argv": got}, "the arguments around @$() did not arrive", None)
+            continue
+        mid = got[1:-1]
+        # (1) the contract: line by line
+        if not raised and mid != m_toks:
+            ctx.disagree(name, case, mid, m_toks)
+        # (2) the property: the white-space separated tokens of the output, verbatim
+        want = []
+        for l, t in zip(lines, per):
+            plain_line = not re.search(r"['\"]|(^|\s)#", l)
+            want += l.split() if plain_line else [x for x in t if not LEXER_MESSAGES.search(x)]
+        if mid != want:
             key = None
-            mid = [t for t in got[1:-1] if t.strip()]
-            ref = plain if not quoted else [t.strip() for t in lexed if t.strip()]
-            # (the keyword is one character longer than the operator, so the next token may also be glued on: compare without blanks)
-            spellings = ("".join({"&&": "and", "||": "or"}.get(r, r) for r in ref), "".join(ref))  # (`&&` as the lexer's keyword, or as written)
-            explained = "".join(g.strip() for g in mid) == spellings[0]
-            if is_open("captured-inject-lexer-split-artifacts") and got == ["pre"] + lexed + ["post"] and explained and (edge or "&&" in plain or "||" in plain):
-                # exactly what the session's own Lexer.split answers, and the only differences are its known artefacts
-                key = "captured-inject-lexer-split-artifacts"
-            elif is_open("whitespace-run-before-untokenizable-char") and got == ["pre"] + lexed + ["post"] and any(ws_errortoken(l) for l in text.splitlines()) and \
-                    "".join("".join(g.split()) for g in mid) in spellings:
-                key = "whitespace-run-before-untokenizable-char"  # the same tokenizer artefact, met by Lexer.split
-            ctx.spec_failure(case, {"argv": got, "tokens_of_the_output": want[1:-1]}, "@$() did not deliver the white-space separated tokens of the captured output verbatim", key)
+            nf = lambda x: unicodedata.normalize("NFKC", x)  # noqa: E731
+            if is_open("captured-inject-nfkc-normalised") and mid == m_toks and "".join(mid) == "".join(nf(x) for x in want) and nf(text) != text:
+                key = "captured-inject-nfkc-normalised"  # exactly the per-line answers of Lexer.split, which differ only by NFKC (and the re-split it causes)
+            elif is_open("captured-inject-lexer-error-text") and mid == m_toks and any(LEXER_MESSAGES.search(x) for x in mid) and \
+                    [x for x in mid if not LEXER_MESSAGES.search(x)] == [x for l in lines for x in l.split() if not x.startswith(TRIPLE)]:
+                key = "captured-inject-lexer-error-text"  # the lexer's error message(s) arrive as arguments (an unterminated triple quote is replaced by one)
+            ctx.spec_failure(case, {"argv": got, "tokens_of_the_output": want}, "@$() did not deliver the white-space separated tokens of the captured output verbatim", key)
 
 
 # ============================================================================ direct function correspondences
@@ -1569,7 +1615,7 @@ def replay_known(ctx, ses):
         before = len(ctx.spec_failures)
         if "emit_output" in w:
             t = w["emit_output"]
-            check_captured(ctx, ses, "known-witness", f["key"], t, False, t != t.strip() or any(l != l.strip() for l in t.splitlines()))
+            check_captured(ctx, ses, "known-witness", f["key"], t)
             mine = ctx.spec_failures[before:]
             ctx.replayed(f["key"], any(sf["key"] == f["key"] for sf in mine), mine[0]["observed"] if mine else None)
             continue
@@ -1620,7 +1666,7 @@ def run(ctx):
         stream_commands(ctx, ses, ctx.n(7000, 90000))
         stream_child(ctx, ses, ctx.n(500, 7000))
         stream_known_mechanisms(ctx, ses, ctx.n(150, 2000))
-        stream_captured(ctx, ses, ctx.n(150, 2500))
+        stream_captured(ctx, ses, ctx.n(1200, 20000))
     finally:
         ses.close()
 
@@ -1648,7 +1694,7 @@ def replay(ctx, path):
     try:
         if "emit_output" in c:
             t = c["emit_output"]
-            got = check_captured(ctx, ses, "replay", 0, t, any(q in t for q in "'\""), any(l != l.strip() for l in t.splitlines()))
+            got = check_captured(ctx, ses, "replay", 0, t)
         else:
             got = run_command(ctx, ses, "replay", 0, c["atoms"], c.get("bang"), c.get("cmd", "rec"), c["form"], sep=c.get("sep"))
     finally:
